@@ -11,7 +11,10 @@ take (virtual) time before they succeed, fail or are given up by the caller (`ru
 from __future__ import annotations
 
 import asyncio
+import errno
 import hashlib
+import os
+import re
 import socket
 import ssl
 
@@ -63,7 +66,231 @@ def hexb(b: bytes) -> str:
 # ---- fakes -------------------------------------------------------------------------------------
 
 
-class FakeWriter:
+class StandInSocket:
+    """What `get_extra_info("socket")` of a stand-in writer gives: the surface of asyncio's TransportSocket over a REAL
+    TCP socket of this machine that is simply not connected (created when first touched, closed with the writer), so that
+    socket options a library sets or reads at connect time (TCP_NODELAY, SO_KEEPALIVE, buffer sizes, SO_LINGER ...) are
+    accepted, refused and reported back by the OS exactly as on a live connection.  The bytes of the stand-in stream do
+    not travel through it - what socket options do to delivery is judged over real connections (`run_delivery`)."""
+
+    def __init__(self, peername: tuple, sockname: tuple) -> None:
+        self._peername, self._sockname = peername, sockname
+        self._sock: socket.socket | None = None
+        self._closed = False
+        self.options: list[tuple] = []        # every setsockopt, in call order (evidence only)
+
+    def _real(self) -> socket.socket:
+        if self._sock is None:
+            self._sock = socket.socket(socket.AF_INET, socket.SOCK_STREAM)
+            self._sock.setblocking(False)
+            if self._closed:
+                self._sock.close()
+        return self._sock
+
+    family = property(lambda self: socket.AF_INET)
+    type = property(lambda self: socket.SOCK_STREAM)
+    proto = property(lambda self: 0)
+
+    def fileno(self) -> int:
+        return self._real().fileno()
+
+    def dup(self):
+        return self._real().dup()
+
+    def get_inheritable(self) -> bool:
+        return self._real().get_inheritable()
+
+    def setsockopt(self, *args) -> None:
+        self._real().setsockopt(*args)
+        self.options.append(args)
+
+    def getsockopt(self, *args):
+        return self._real().getsockopt(*args)
+
+    def getpeername(self):
+        return self._peername
+
+    def getsockname(self):
+        return self._sockname
+
+    def getsockbyname(self):
+        return self._sockname
+
+    def gettimeout(self) -> float:
+        return 0.0
+
+    def settimeout(self, value) -> None:
+        if value != 0:
+            raise ValueError("settimeout(): only 0 timeout is allowed on transport sockets")
+
+    def setblocking(self, flag) -> None:
+        if flag:
+            raise ValueError("setblocking(): transport sockets cannot be blocking")
+
+    def close_real(self) -> None:
+        self._closed = True
+        if self._sock is not None:
+            self._sock.close()
+
+    def __del__(self) -> None:
+        try:
+            self.close_real()
+        except Exception:  # noqa: BLE001
+            pass
+
+
+class StandInTransport:
+    """`writer.transport` of a stand-in writer: the asyncio.WriteTransport surface, delegating to the writer."""
+
+    def __init__(self, writer) -> None:
+        self._writer = writer
+        self._limits = (16 * 1024, 64 * 1024)
+        self._protocol = None
+
+    def get_extra_info(self, name, default=None):
+        return self._writer.get_extra_info(name, default)
+
+    def is_closing(self) -> bool:
+        return self._writer.is_closing()
+
+    def close(self) -> None:
+        self._writer.close()
+
+    def abort(self) -> None:
+        self._writer.close()
+
+    def write(self, data) -> None:
+        self._writer.write(data)
+
+    def writelines(self, lines) -> None:
+        self._writer.write(b"".join(lines))
+
+    def can_write_eof(self) -> bool:
+        return self._writer.can_write_eof()
+
+    def write_eof(self) -> None:
+        self._writer.write_eof()
+
+    def get_write_buffer_size(self) -> int:
+        return 0
+
+    def get_write_buffer_limits(self) -> tuple:
+        return self._limits
+
+    def set_write_buffer_limits(self, high=None, low=None) -> None:
+        if high is None:
+            high = 64 * 1024 if low is None else 4 * low
+        if low is None:
+            low = high // 4
+        if not high >= low >= 0:
+            raise ValueError(f"high ({high!r}) must be >= low ({low!r}) must be >= 0")
+        self._limits = (low, high)
+
+    def get_protocol(self):
+        return self._protocol
+
+    def set_protocol(self, protocol) -> None:
+        self._protocol = protocol
+
+    def is_reading(self) -> bool:
+        return not self._writer.is_closing()
+
+    def pause_reading(self) -> None:
+        pass
+
+    def resume_reading(self) -> None:
+        pass
+
+
+class WriterShape:
+    """The part of asyncio.StreamWriter's surface that is not write/drain/close/wait_closed, for every stand-in writer of
+    the harness (this module's and harness/props/bytepipe.py's): a library may look at the connection it just opened -
+    `writer.get_extra_info("socket")` / `("peername")` / `("serial")`, `writer.transport`, `writer.is_closing()` - and
+    must meet what a live connection would show, not a harness that falls over.  `kind` is "tcp" (a socket, as a TCP
+    connection or a socket pair has) or "serial" (pyserial-asyncio: a `serial` object, no socket)."""
+
+    kind = "tcp"
+    peer = ("127.0.0.1", 5003)
+    _stand_in_socket = None
+    _stand_in_serial = None
+    _stand_in_transport = None
+    eof_written = False
+
+    def get_extra_info(self, name, default=None):
+        if self.kind == "serial":
+            if name != "serial":
+                return default
+            if self._stand_in_serial is None:
+                self._stand_in_serial = stand_in_serial()
+            return self._stand_in_serial if self._stand_in_serial is not None else default
+        if name == "socket":
+            if self._stand_in_socket is None:
+                self._stand_in_socket = StandInSocket(self.peer, ("127.0.0.1", 49152))
+                if getattr(self, "closed", False):
+                    self._stand_in_socket.close_real()
+            return self._stand_in_socket
+        if name == "peername":
+            return self.peer
+        if name == "sockname":
+            return ("127.0.0.1", 49152)
+        return default
+
+    @property
+    def transport(self):
+        if self._stand_in_transport is None:
+            self._stand_in_transport = StandInTransport(self)
+        return self._stand_in_transport
+
+    def is_closing(self) -> bool:
+        return bool(getattr(self, "closing", False) or getattr(self, "closed", False))
+
+    def can_write_eof(self) -> bool:
+        return self.kind == "tcp"
+
+    def write_eof(self) -> None:
+        self.eof_written = True
+
+    def writelines(self, lines) -> None:
+        self.write(b"".join(lines))
+
+    def release_stand_ins(self) -> None:
+        """The connection is closed: so are the OS objects behind the stand-ins."""
+        if self._stand_in_socket is not None:
+            self._stand_in_socket.close_real()
+        if self._stand_in_serial is not None:
+            try:
+                self._stand_in_serial.close()
+            except Exception:  # noqa: BLE001
+                pass
+
+
+def stand_in_serial():
+    """A real pyserial object on a pseudo terminal of this machine (None where there are none): what
+    `get_extra_info("serial")` of a pyserial-asyncio transport gives."""
+    try:
+        master, slave = os.openpty()
+    except OSError:
+        return None
+    try:
+        port = serial.Serial(os.ttyname(slave), 57600, timeout=0)
+    except Exception:  # noqa: BLE001
+        os.close(master)
+        os.close(slave)
+        return None
+    os.close(slave)
+    real_close = port.close
+
+    def close() -> None:
+        real_close()
+        nonlocal master
+        if master is not None:
+            os.close(master)
+            master = None
+    port.close = close
+    return port
+
+
+class FakeWriter(WriterShape):
     """Stands in for asyncio.StreamWriter: records the bytes, raises the scripted fault once."""
 
     def __init__(self) -> None:
@@ -91,6 +318,7 @@ class FakeWriter:
     def close(self) -> None:
         self._maybe("close")
         self.closed = True
+        self.release_stand_ins()
 
     async def wait_closed(self) -> None:
         self._maybe("wait_closed")
@@ -116,9 +344,18 @@ async def fake_open(**kwargs):
         exc, Opening.fault = Opening.fault, None
         raise exc
     reader = asyncio.StreamReader(limit=Opening.limit)
-    pair = (reader, FakeWriter() if Opening.make_writer is None else Opening.make_writer(reader))
+    pair = (reader, shaped(FakeWriter() if Opening.make_writer is None else Opening.make_writer(reader), kwargs))
     Opening.last_pair = pair
     return pair
+
+
+def shaped(writer, kwargs: dict):
+    """The stand-in writer shows the kind of connection that was asked for (see WriterShape)."""
+    if "url" in kwargs:
+        writer.kind = "serial"
+    elif "port" in kwargs:
+        writer.peer = ("127.0.0.1", kwargs["port"])
+    return writer
 
 
 class GatedWriter(FakeWriter):
@@ -167,6 +404,7 @@ class GatedWriter(FakeWriter):
     def close(self) -> None:
         self.calls.append("close")
         self.closed = True
+        self.release_stand_ins()
         if self.closing:
             return
         self.closing = True
@@ -814,7 +1052,7 @@ class SlowOpen:
             self.ended.append("raised")
             self.log(f"open attempt #{n} raises {self.outcome}")
             raise CONNECT_FAULTS[self.outcome]("injected")
-        pair = (asyncio.StreamReader(limit=self.limit), FakeWriter())
+        pair = (asyncio.StreamReader(limit=self.limit), shaped(FakeWriter(), kwargs))
         self.pairs.append(pair)
         Opening.last_pair = pair
         self.ended.append("opened")
@@ -1236,6 +1474,437 @@ def corpus_ops(c: dict) -> list[tuple]:
     return ops
 
 
+# ---- real connections: what was written before disconnect() reaches the peer -------------------
+#
+# C17: "each write puts exactly the UTF-8 bytes of the given line on the stream in call order", observed as "bytes
+# received by the peer for a sequence of writes".  The stand-in writers above ARE the stream, so a byte handed to them
+# has arrived by definition; on a live connection the bytes of a write() that returned still sit in the socket's send
+# buffer, and whether they arrive depends on everything the transport did to the connection between connect() and the
+# end of disconnect() (socket options, how it closes).  A delivery case therefore runs the real `TCPTransport` over a
+# REAL loopback TCP connection to a peer that the harness drives in the same event loop:
+#   connect() [- the peer greets with one line, read() returns it] - write(line) for every line of the case, each awaited
+#   - disconnect();
+# the peer reads according to its policy (`prompt`: as fast as it can; `slow`: `chunk` bytes, a pause, and so on;
+# `late`: nothing at all until the client has returned from disconnect() - and while the client is stuck because every
+# buffer between the two is full, just enough to make it move), with the operating system's default receive buffer or a
+# small one (an embedded gateway).  Then it reads to the end of the stream.  Judged by the property alone: if connect,
+# every write and disconnect returned normally, the peer has received exactly the bytes of the lines, in order, and
+# then a clean end of stream (not a reset: a reset is how TCP tells the peer that data was thrown away).
+# Everything the verdict depends on is an event (bytes, end of stream, a call returning); the clocks only bound how
+# long the harness waits for an event that does not come (`Wall.guard`, generous) and decide when a peer that is
+# holding back reads a little earlier (`Wall.stall`: reading earlier only makes a case milder).  A violation is
+# kept only if it shows again when the case is run a second time with the guards doubled (`delivery_confirmed`).
+
+
+class Wall:
+    guard = 20.0      # seconds the harness waits for an event that depends only on this process and the loopback interface
+    stall = 0.02      # a client that made no progress for this long is taken to wait for the peer
+
+
+D_GREETING = "0;255;3;0;14;Gateway startup complete.\n"
+D_PADS = ["x", "caf\u00e9 \u20ac ", "0123456789", "\U0001f600;"]
+
+
+def delivery_lines(spec: dict) -> list[str]:
+    """The lines of a delivery case: `count` lines, each with its own number, padded to about `width` characters
+    (ASCII and multi-byte pads in rotation), so that the peer's bytes say which line a difference starts in."""
+    out = []
+    for i in range(spec["count"]):
+        pad = D_PADS[i % len(D_PADS)]
+        body = (pad * (spec["width"] // len(pad) + 1))[:spec["width"]]
+        out.append(f"{i % 255};{i % 7};1;0;47;{i:07d}{body}\n")
+    return out
+
+
+def delivery_text(case: dict) -> str:
+    ln, peer = case["lines"], case["peer"]
+    how = {"prompt": "reads as fast as it can",
+           "slow": f"takes {peer.get('chunk')} bytes, pauses {peer.get('pause')} s, and so on",
+           "late": "reads only after the client returned from disconnect() (and as little as keeps the client moving)"}[peer["mode"]]
+    link = ("SerialTransport on the slave side of a pseudo terminal" if case.get("link") == "pty" else
+            "TCPTransport over a real loopback connection")
+    return (f"{link}: connect, {'read the greeting, ' if case.get('greeting') else ''}"
+            f"{ln['count']} write(s) of about {ln['width'] + 20} characters, disconnect; the peer "
+            f"({'the master side' if case.get('link') == 'pty' else 'receive buffer: ' + str(peer.get('rcvbuf') or 'default')}) {how}"
+            + (f", then waits {peer['after']} s" if peer.get("after") else "") + " and reads to the end of the stream")
+
+
+class TcpFarEnd:
+    """The peer of a delivery case over TCP: a listening loopback socket (optionally with a small receive buffer, which
+    the accepted connection inherits) and the one connection it accepts, driven by the harness in the event loop."""
+
+    def __init__(self, rcvbuf) -> None:
+        self.listener = socket.socket(socket.AF_INET, socket.SOCK_STREAM)
+        self.conn = None
+        try:
+            if rcvbuf:
+                self.listener.setsockopt(socket.SOL_SOCKET, socket.SO_RCVBUF, rcvbuf)
+            self.listener.bind(("127.0.0.1", 0))
+            self.listener.listen(1)
+            self.listener.setblocking(False)
+        except OSError:
+            self.listener.close()
+            raise
+
+    def transport(self):
+        return TCPTransport("127.0.0.1", self.listener.getsockname()[1])
+
+    async def accept(self) -> bool:
+        try:
+            self.conn, _ = await asyncio.wait_for(asyncio.get_running_loop().sock_accept(self.listener), Wall.guard)
+        except TimeoutError:
+            return False
+        self.conn.setblocking(False)
+        return True
+
+    async def send(self, data: bytes) -> None:
+        await asyncio.get_running_loop().sock_sendall(self.conn, data)
+
+    async def recv(self, n: int):
+        """bytes | b"" (clean end of stream) | an OSError instance (the stream ended with an error) | None (nothing came)."""
+        try:
+            return await asyncio.wait_for(asyncio.get_running_loop().sock_recv(self.conn, n), Wall.guard)
+        except TimeoutError:
+            return None
+        except OSError as err:
+            return err
+
+    def close(self) -> None:
+        if self.conn is not None:
+            self.conn.close()
+        self.listener.close()
+
+
+class PtyFarEnd:
+    """The peer of a delivery case over a serial line: the master side of a pseudo terminal whose slave side the real
+    SerialTransport opens through pyserial-asyncio.  When the transport closes the port, the master reads what is still
+    queued and then gets EIO (the line hung up): that is this link's clean end of stream."""
+
+    def __init__(self) -> None:
+        self.master, self.slave = os.openpty()
+        os.set_blocking(self.master, False)
+
+    def transport(self):
+        return SerialTransport(os.ttyname(self.slave), 57600)
+
+    async def accept(self) -> bool:
+        os.close(self.slave)            # the transport holds the only open slave side now
+        self.slave = None
+        return True
+
+    async def send(self, data: bytes) -> None:
+        os.write(self.master, data)
+
+    async def recv(self, n: int):
+        loop = asyncio.get_running_loop()
+        while True:
+            try:
+                return os.read(self.master, n)
+            except BlockingIOError:
+                pass
+            except OSError as err:
+                return b"" if err.errno == errno.EIO else err
+            fut = loop.create_future()
+            loop.add_reader(self.master, lambda: fut.done() or fut.set_result(None))
+            try:
+                await asyncio.wait_for(fut, Wall.guard)
+            except TimeoutError:
+                return None
+            finally:
+                loop.remove_reader(self.master)
+
+    def close(self) -> None:
+        for fd in (self.master, self.slave):
+            if fd is not None:
+                os.close(fd)
+
+
+async def run_delivery(case: dict) -> dict:
+    """One delivery case on the real TCPTransport / SerialTransport.  Returns the observations and the oracle's findings
+    ({"violations": [(what, details)], ...}); raises OSError only if the loopback interface (the pseudo terminal)
+    itself cannot be had."""
+    loop = asyncio.get_running_loop()
+    peer_cfg = case["peer"]
+    mode = peer_cfg["mode"]
+    lines = delivery_lines(case["lines"])
+    expected = "".join(lines).encode("utf-8")
+    far = PtyFarEnd() if case.get("link") == "pty" else TcpFarEnd(peer_cfg.get("rcvbuf"))
+    res: dict = {"written_bytes": 0, "writes_returned": 0, "violations": []}
+    received = bytearray()
+    progress = 0
+    steps: dict[str, str] = {}
+
+    def bad(what: str, **kw) -> None:
+        res["violations"].append((what, kw))
+
+    async def call(coro) -> str:
+        try:
+            r = await coro
+            return "ok" if r is None else (("line " + enc(r)) if type(r) is str else f"returned {type(r).__name__}")
+        except Exception as e:  # noqa: BLE001
+            return classify(e)
+
+    async def client() -> None:
+        nonlocal progress
+        if case.get("greeting"):
+            steps["read"] = await call(t.read())
+            if steps["read"] != "line " + enc(D_GREETING):
+                return
+        for i, line in enumerate(lines):
+            o = await call(t.write(line))
+            if o != "ok":
+                steps["write"] = o
+                steps["failed_write"] = str(i)
+                break
+            progress = i + 1
+        steps["disconnect"] = await call(t.disconnect())
+
+    recv = far.recv
+
+    try:
+        t = far.transport()
+        try:
+            steps["connect"] = await asyncio.wait_for(call(t.connect()), Wall.guard)
+        except TimeoutError:
+            steps["connect"] = "hang"
+        res["steps"] = steps
+        if steps["connect"] != "ok":
+            bad("connect to a listening peer on the loopback interface (an existing serial device) did not succeed",
+                got=steps["connect"])
+            return res
+        if not await far.accept():
+            bad("connect returned normally but no connection reached the listening peer")
+            return res
+        if case.get("greeting"):
+            try:
+                await far.send(D_GREETING.encode())
+            except OSError:
+                pass                     # the client's read will not return the greeting then
+        task = asyncio.ensure_future(client())
+        ending = None          # "eof" | "reset:<class>" | "nothing" (guard expired)
+        t0 = loop.time()
+
+        def note(data) -> bool:
+            """Book what a recv gave; True when the stream has ended one way or the other."""
+            nonlocal ending
+            if data is None:
+                ending = "nothing"
+            elif isinstance(data, OSError):
+                ending = "reset:" + type(data).__name__
+            elif not data:
+                ending = "eof"
+            else:
+                received.extend(data)
+                return False
+            return True
+
+        if mode == "late":
+            while not task.done() and ending is None:
+                seen = progress
+                await asyncio.wait({task}, timeout=Wall.stall)
+                while not task.done() and progress == seen and ending is None:      # stuck: every buffer on the way is full
+                    note(await recv(65536))
+                    await asyncio.sleep(0)
+                if loop.time() - t0 > 10 * Wall.guard:
+                    break
+        else:
+            chunk = peer_cfg.get("chunk") or 65536
+            taken = 0
+            while ending is None and not (task.done() and mode == "slow"):
+                before = len(received)
+                note(await recv(chunk))
+                taken += len(received) - before
+                if mode == "slow" and taken >= chunk:
+                    taken = 0
+                    await asyncio.sleep(peer_cfg.get("pause") or 0.001)
+        if not task.done() and ending is not None:
+            # the stream has ended for the peer; the client's calls have nothing left to wait for
+            await asyncio.wait({task}, timeout=Wall.guard)
+        if not task.done():
+            task.cancel()
+            await asyncio.wait({task})
+            bad("a call of the transport neither returned nor raised although the peer takes everything that is sent",
+                steps=dict(steps), writes_returned=progress)
+            return res
+        if peer_cfg.get("after"):
+            await asyncio.sleep(peer_cfg["after"])
+        while ending is None:
+            note(await recv(65536))
+        res.update(writes_returned=progress, written_bytes=len("".join(lines[:progress]).encode("utf-8")),
+                   received_bytes=len(received), ending=ending, received=bytes(received))
+        # ---- the oracle (C17 restated; nothing here knows what the transport did to the socket)
+        if case.get("greeting") and steps.get("read") != "line " + enc(D_GREETING):
+            bad("read did not return the line the peer sent", got=steps.get("read"))
+            return res
+        for step in ("write", "disconnect"):
+            o = steps.get(step, "ok")
+            if o != "ok" and not is_transport_error(o):
+                bad(f"{step} on a live connection raised something that is not a transport error", got=o)
+        if steps.get("disconnect") != "ok":
+            bad("disconnect did not return normally", got=steps.get("disconnect"))
+        if "write" in steps:
+            if is_transport_error(steps["write"]):
+                bad("a write on a live connection whose peer did nothing but read raised a transport error",
+                    got=steps["write"], write_number=int(steps["failed_write"]))
+            return res
+        if steps.get("disconnect") != "ok":
+            return res
+        got = bytes(received)
+        if got != expected:
+            k = next((i for i, (a, b) in enumerate(zip(got, expected)) if a != b), min(len(got), len(expected)))
+            upto, line_no = 0, 0
+            for line_no, line in enumerate(lines):
+                upto += len(line.encode("utf-8"))
+                if upto > k:
+                    break
+            bad("bytes of lines whose write() returned normally before disconnect() did not reach the peer "
+                "(the peer's stream is not exactly the lines written, in call order)",
+                written_bytes=len(expected), received_bytes=len(got), received_is_a_prefix=expected.startswith(got),
+                first_difference_at_byte=k, in_line_number=line_no, that_line=lines[line_no][:80] if lines else None,
+                peer_stream_ended_with=ending)
+        elif ending != "eof":
+            if ending == "nothing":
+                bad(f"disconnect returned normally but the peer saw no end of stream within {Wall.guard:g} s",
+                    received_bytes=len(got))
+            else:
+                bad("after disconnect() the peer's stream ended with an error (a connection reset), not with a clean end of "
+                    "stream (every byte written had been received)", peer_stream_ended_with=ending, received_bytes=len(got))
+        return res
+    finally:
+        far.close()
+
+
+def delivery_key(what: str) -> str:
+    return re.sub(r"\d+(\.\d+)?", "#", what)
+
+
+async def delivery_confirmed(corr: Corr, case: dict, info: dict) -> dict | None:
+    """Run one delivery case; what its oracle reports is kept only if it shows again in a second run of the same case
+    with the guards doubled and the stall watch five times as patient (a defect of the library reproduces, a
+    disturbance by the machine does not; the latter is counted in the evidence).  None = no loopback interface."""
+    try:
+        res = await run_delivery(case)
+    except OSError as err:
+        note = (f"{'pseudo terminals' if case.get('link') == 'pty' else 'loopback sockets'} unavailable ({type(err).__name__}: "
+                f"{err}); delivery over a real connection of that kind not exercised")
+        if note not in corr.notes:
+            corr.notes.append(note)
+        return None
+    if res["violations"]:
+        old = (Wall.guard, Wall.stall)
+        Wall.guard, Wall.stall = Wall.guard * 2, Wall.stall * 5
+        try:
+            again = await run_delivery(case)
+        except OSError:
+            again = {"violations": []}
+        finally:
+            Wall.guard, Wall.stall = old
+        seen = {delivery_key(w) for w, _ in again["violations"]}
+        for what, kw in res["violations"]:
+            if delivery_key(what) in seen:
+                corr.violate(what, {**info, "delivery": case, "scenario": delivery_text(case),
+                                    "steps": res.get("steps"), **kw, "shown_again_on_a_second_run": True})
+            else:
+                corr.count("delivery:unconfirmed-wall-clock-observation")
+                corr.notes.append("delivery: an observation did not show again when the case was run a second time with "
+                                  "relaxed timing; not reported: " + what[:160])
+    return res
+
+
+# (lines, pad width); a line of width w is about 1.5 w + 20 bytes.  A loopback peer that does not read absorbs 3 - 4 MB
+# (its receive buffer + the client's send buffer, which the OS grows to net.ipv4.tcp_wmem's maximum) before the
+# client's drain() has to wait: the two largest volumes are beyond that (the last one in lines of 150 kB, with which
+# the final write() sometimes returns while asyncio still holds a remainder that only disconnect() can flush)
+D_VOLUMES_QUICK = [(0, 0), (1, 0), (5, 8), (200, 8), (300, 1000), (2000, 1000), (1, 300000), (5000, 1000), (60, 100000)]
+D_VOLUMES_PTY = [(1, 0), (200, 8), (60, 1000)]      # a pseudo terminal takes 4 kB at a time: smaller volumes
+D_VOLUMES_THOROUGH = [(2, 40), (40, 0), (1000, 0), (50, 200), (64, 1004), (1200, 500), (4000, 1000), (3, 60000),
+                      (1, 2000000), (20000, 8)]
+
+
+def delivery_cases(rng, tier: str) -> list[tuple[dict, dict]]:
+    """(case, info).  Quick: every volume of D_VOLUMES_QUICK (no line, one line ... about 9 MB; lines of 20 B ... 450 kB) twice,
+    with a rotating peer (prompt / slow / late x default / small receive buffer; some with a greeting), and three small
+    volumes over a pseudo terminal.  Thorough: every volume (also D_VOLUMES_THOROUGH) x every peer policy x receive
+    buffers {default, 2304 (the minimum), 4096, 65536}, more pseudo-terminal cases, and random cases."""
+    out: list[tuple[dict, dict]] = []
+
+    def peer(mode: str, rcvbuf, total: int, after: float = 0.0) -> dict:
+        p = {"mode": mode, "rcvbuf": rcvbuf, "after": after}
+        if mode == "slow":
+            p["chunk"] = max(rng.choice([512, 4096, 16384]), total // 100)
+            p["pause"] = 0.001
+        return p
+
+    def add(source: str, count: int, width: int, mode: str, rcvbuf, greeting: bool, after: float = 0.0) -> None:
+        total = count * (width + 20)
+        out.append(({"link": "tcp", "lines": {"count": count, "width": width}, "peer": peer(mode, rcvbuf, total, after),
+                     "greeting": greeting}, {"source": "delivery:" + source}))
+
+    def add_pty(source: str, count: int, width: int, mode: str, greeting: bool) -> None:
+        total = count * (width + 20)
+        out.append(({"link": "pty", "lines": {"count": count, "width": width}, "peer": peer(mode, None, total),
+                     "greeting": greeting}, {"source": "delivery:" + source}))
+
+    modes = ["late", "prompt", "slow"]
+    combos = [(m, b) for b in (4096, None) for m in modes]
+    k = rng.randrange(30)
+    for count, width in D_VOLUMES_QUICK:
+        for _ in range(2):
+            mode, rcvbuf = combos[k % 6]
+            add("grid", count, width, mode, rcvbuf, greeting=(k % 5 == 0), after=0.05 if k % 7 == 3 else 0.0)
+            k += 1
+    for j, (count, width) in enumerate(D_VOLUMES_PTY):
+        add_pty("serial", count, width, modes[(k + j) % 3], greeting=((k + j) % 4 == 0))
+    if tier != "quick":
+        for count, width in [*D_VOLUMES_PTY, (0, 0), (40, 0), (1000, 0), (1, 100000), (300, 1000)]:
+            for mode in modes:
+                add_pty("serial-sweep", count, width, mode, greeting=(k % 3 == 0))
+                k += 1
+        for count, width in [*D_VOLUMES_QUICK, *D_VOLUMES_THOROUGH]:
+            for mode in modes:
+                for rcvbuf in (None, 2304, 4096, 65536):
+                    add("sweep", count, width, mode, rcvbuf, greeting=(k % 3 == 0), after=0.05 if k % 4 == 1 else 0.0)
+                    k += 1
+        for _ in range(60):
+            width = rng.choice([0, 0, 8, 30, 100, 1000, 5000])
+            count = rng.randint(1, max(1, min(5000, 3000000 // (width + 20))))
+            add("random", count, width, rng.choice(modes), rng.choice([None, 2304, 4096, 16384, 65536, 262144]),
+                greeting=rng.random() < 0.3, after=rng.choice([0.0, 0.0, 0.02, 0.2]))
+    return out
+
+
+def delivery_model_ops(case: dict, res: dict) -> tuple[list[str], list[str]] | None:
+    """A small delivery case read as an operation list of the model: the connection's stream = what the peer received."""
+    lines = delivery_lines(case["lines"])
+    if case.get("greeting") or sum(len(x) for x in lines) > 2000 or "received" not in res or res["violations"]:
+        return None
+    steps = res.get("steps", {})
+    ops = [f"snew {2 ** 16}", *[f"write {enc(x)} -" for x in lines], "disc -", "out"]
+    obs = ["ok", *["ok"] * res["writes_returned"], steps.get("disconnect", "?"),
+           f"out {hexb(res['received'])} closed={1 if res.get('ending') == 'eof' else 0}"]
+    return (ops, obs) if len(ops) == len(obs) else None
+
+
+def replay(case: dict) -> int:
+    """Re-execute a recorded delivery case (`case["delivery"]`) on the implementation."""
+    d = case["delivery"]
+    print("scenario:", delivery_text(d))
+
+    async def main() -> dict:
+        return await run_delivery(d)
+
+    res = asyncio.run(main())
+    print("steps:", res.get("steps"))
+    print(f"writes returned normally: {res.get('writes_returned')} ({res.get('written_bytes')} bytes); the peer received "
+          f"{res.get('received_bytes')} bytes; its stream ended with: {res.get('ending')}")
+    for what, kw in res["violations"]:
+        print("  VIOLATED:", what)
+        for k, v in kw.items():
+            print(f"     {k}: {v}")
+    print("reproduced" if res["violations"] else "NOT reproduced: the oracle holds on this run")
+    return 0
+
+
 # ---- offline checks of the concrete transports' own code --------------------------------------
 
 
@@ -1349,7 +2018,12 @@ def run_c17(ctx) -> Corr:
                 "classes or 2 others, the caller's task cancelled before connect runs / half-way / just before the answer / never; "
                 "connect must return with the opened streams installed or raise a transport error (CancelledError only for a "
                 "cancelled caller), then the connection must deliver lines and take writes, or the unconnected transport must "
-                "raise transport errors and a prompt second attempt must succeed; compared with the model's conn as well. non-trivial = distinct (limit, ops, observations) with >= 2 "
+                "raise transport errors and a prompt second attempt must succeed; compared with the model's conn as well; (f) the real "
+                "TCPTransport over real loopback TCP connections (and the real SerialTransport on a pseudo terminal): connect, 0 .. 5000 "
+                "(thorough 20000) writes of 20 B .. 450 kB (thorough 3 MB), up to 9 MB in all (more than a peer that does not read "
+                "absorbs), disconnect, with a peer that reads promptly / slowly / only after disconnect() returned and has the "
+                "default or a small receive buffer: the peer must receive exactly the bytes written, in order, then a clean end "
+                "of stream (findings confirmed by a second run). non-trivial = distinct (limit, ops, observations) with >= 2 "
                 "chunks, or an error outcome, or a fault; for (d): overlapping writes, or a disconnect/loss in the case")
     tier = ctx.tier
     rng = lib.rng_for(ctx.seed, "c17")
@@ -1479,6 +2153,27 @@ def run_c17(ctx) -> Corr:
     while len(sresults) < len(scases):
         asyncio.run(run_scases(), loop_factory=VirtualTimeLoop)
 
+    # (f) real connections: what was written before disconnect() reaches the peer (real time, real sockets; each
+    # finding confirmed by a second run of its case)
+    dcases = delivery_cases(lib.rng_for(ctx.seed, "c17-delivery"), tier)
+    dresults: list[tuple] = []
+
+    async def run_dcases() -> None:
+        found = Corr(corr.prop, corr.rule)
+        found.notes, found.dist = corr.notes, corr.dist
+        for case, info in dcases:
+            res = await delivery_confirmed(found, case, info)
+            if res is None:
+                continue
+            dmodel = delivery_model_ops(case, res)
+            res.pop("received", None)
+            dresults.append((case, info, res, dmodel))
+        # the findings that name bytes that were written and did not arrive first (the first one becomes the replay)
+        for v in sorted(found.violations, key=lambda v: 0 if "first_difference_at_byte" in v else 1):
+            corr.violate(v.pop("what"), v)
+
+    asyncio.run(run_dcases())
+
     # ---- accounting (the concurrent cases first, so that two of them are among the evidence's samples)
     # concurrent cases; those that are pure contention (writes, block, release only) have a sequential reading:
     # the writes one after the other in call order, which is an operation list of the model
@@ -1540,6 +2235,29 @@ def run_c17(ctx) -> Corr:
                       "open function did>` (the caller's cancellation = the open function raising CancelledError) followed by "
                       "the reads/writes/disconnect of the case")
 
+    for case, info, res, dmodel in dresults:
+        total = res.get("written_bytes", 0)
+        corr.count("cases:" + info["source"])
+        corr.count("delivery:link:" + case.get("link", "tcp"))
+        corr.count("delivery:peer:" + case["peer"]["mode"] + ":rcvbuf-" + str(case["peer"].get("rcvbuf") or "default"))
+        corr.count("delivery:bytes-written-before-disconnect:" + ("0" if total == 0 else "<1k" if total < 1000 else "<100k"
+                   if total < 100000 else "<1M" if total < 10 ** 6 else ">=1M"))
+        corr.count("delivery:peer-stream-ended-with:" + str(res.get("ending")))
+        if dmodel is not None:
+            corr.count("delivery:compared-with-model")
+        show = sum(1 for x in corr.samples if "delivery" in x) < 1 and total > 100000
+        corr.case(hashlib.sha1(repr(sorted(case.items(), key=str)).encode()).hexdigest(), case["lines"]["count"] > 0,
+                  {**info, "delivery": case, "scenario": delivery_text(case), "steps": res.get("steps"),
+                   "written_bytes": total, "received_bytes": res.get("received_bytes"), "ending": res.get("ending")}
+                  if show else None)
+    corr.notes.append("delivery cases (source delivery:*): the real TCPTransport over a real loopback TCP connection - connect, "
+                      "writes (none ... some MB), disconnect - to a peer that reads promptly, slowly, or only after the client "
+                      "returned from disconnect(), with the default or a small receive buffer; judged by the property's oracle "
+                      "(when every call returned normally the peer has received exactly the bytes of the lines, in call order, "
+                      "then a clean end of stream); a finding is kept only if it shows again on a second run of its case with "
+                      "relaxed guards; small cases are also compared with the model (the connection's stream = what the peer "
+                      "received, closed = the peer saw a clean end of stream)")
+
     for (ops, info), obs in zip(cases, all_obs):
         src = info["source"].split(":")[0]
         corr.count(f"cases:{src}")
@@ -1557,8 +2275,19 @@ def run_c17(ctx) -> Corr:
         lines = [model_line(o) for ops, _ in cases for o in ops]
         lines += [ln for mlines, _, _ in cmodel for ln in mlines]
         lines += [ln for mlines, _, _ in sresults for ln in mlines]
+        j = len(lines)
+        lines += [ln for _, _, _, dm in dresults if dm is not None for ln in dm[0]]
         outs = lib.run_model(lines, driver=DRIVER)
-        j = len(lines) - sum(len(mlines) for mlines, _, _ in sresults)
+        for case, info, res, dm in dresults:
+            if dm is None:
+                continue
+            mo = outs[j:j + len(dm[0])]
+            j += len(dm[0])
+            if mo != dm[1]:
+                corr.disagree("writes and disconnect over a real connection read as the model's operations (stream = what the "
+                              "peer received)", {**info, "delivery": case, "model_ops": dm[0][:12], "impl": dm[1][-3:],
+                                                 "model": mo[-3:]})
+        j = len(lines) - sum(len(mlines) for mlines, _, _ in sresults) - sum(len(dm[0]) for _, _, _, dm in dresults if dm is not None)
         for (case, info), (mlines, sobs, hist) in zip(scases, sresults):
             mo = outs[j:j + len(mlines)]
             j += len(mlines)
